@@ -117,6 +117,8 @@ def edge_id_variants(j, rng):
         out.append(("permuted", dict(zip(ids, perm))))
     out.append(("gapped", {e: 3 + 4 * k for k, e in enumerate(ids)}))
     out.append(("strings", {e: 100 + k for k, e in enumerate(ids)}))
+    if len(ids) >= 2:  # ids that cannot be ordered against each other (automatic ints plus named edges)
+        out.append(("ints and strings", {e: (100 + k if k % 2 else 3 * k) for k, e in enumerate(ids)}))
     return out
 
 
